@@ -5,8 +5,8 @@ import random
 from harness import common, tlc, runner
 
 # ------------------------------------------------------------------------------------------------ C06
-ALPHABET = ["EQ", "EB", "HH", "SD", "XS", "GE", "UE", "NA", "@", "#", "<", ">", "7", "_", "%", "a", "LS"]
-EXPAND = {"EQ": '\\"', "EB": "\\\\", "HH": "^^", "SD": " .", "XS": "xsd:", "GE": "geo:", "UE": "\\u00E9", "NA": "é", "LS": "\u2028"}
+ALPHABET = ["EQ", "EB", "HH", "SD", "XS", "GE", "UE", "NA", "UQ", "UB", "@", "#", "<", ">", "7", "_", "%", "a", "LS"]
+EXPAND = {"EQ": '\\"', "EB": "\\\\", "HH": "^^", "SD": " .", "XS": "xsd:", "GE": "geo:", "UE": "\\u00E9", "NA": "é", "UQ": "\\u0022", "UB": "\\u005C", "LS": "\u2028"}
 IRIS = {"i1": "http://a.b/c#d", "i2": "urn:x:y_z@w", "i3": "http://a.b/p_q", "dt": "http://u.v/dt#t"}
 BNODES = {"b1": "_:b1", "b2": "_:x_2", "b3": "_:n.1.z"}
 SUFFIX = {"none": "", "lang": "@en", "langreg": "@en-GB", "langnum": "@es-419", "dt": "^^<%s>" % IRIS["dt"]}
